@@ -16,4 +16,6 @@ def run(ck):
     ck.evaluations += sys_eval
     ck.rule += ("; plus whole-broker scenarios (real MemoryBackend over TCP): a persistent subscriber withholding 1..window+2 acknowledgements, cut and "
                 "resumed 1..3 times (also during the resend phase), publishes while offline, final clean connect: nothing_lost, qos2_not_twice_new, "
-                "session_present, clean_discards")
+                "session_present, clean_discards; one QoS 2 delivery across two / three connection losses (before PUBREC, before PUBCOMP, also with a second delivery in "
+                "flight): the PUBREL is retransmitted, never the PUBLISH again (resend_pubrel); takeover of a live clean / persistent connection by a clean / "
+                "persistent one: session-present of the newcomer, then subscribe, offline QoS 1 publish, persistent reconnect (session_present, nothing_lost)")
